@@ -104,7 +104,15 @@ EmbedMsg(rl, hs) == Mk(rl, <<"CL5">> \o hs, "embed", 5, <<>>, "none", <<>>, NoPa
 EmbedFam == {Full(<<EmbedMsg(rl, hs), Follower>>) : rl \in RLOk, hs \in {<<>>, <<"ConnKeep">>, <<"Plain">>}}
             \cup {Full(<<Follower, EmbedMsg("RL11", <<>>), EmbedMsg("RL11", <<"ConnKeep">>), Follower>>)}
 
-Cases(f) == CASE f = "embed" -> EmbedFam [] f = "proxy" -> ProxyFam [] f = "heads1" -> Heads1 [] f = "heads2" -> Heads2 [] f = "heads3" -> Heads3
+(* empty lines before the first and before a later request line, behind every body framing, cut at every offset *)
+BlankFam ==
+  {Full(<<WithPx(m1, b1), WithPx(m2, b2)>>) :
+       m1 \in {Follower, Canon("RL11", <<"CL2">>, NoPad), ChunkedMsg(<<Ch("S1")>>, "Z0", <<>>), Canon("RLbad", <<>>, NoPad),
+               ChunkedMsg(<<Ch("S1")>>, "Z0", <<"Plain">>)},
+       m2 \in {Follower, Canon("RL11", <<"CL1">>, NoPad)}, b1 \in {"none", "blank1", "blank2"}, b2 \in {"none", "blank1", "blank2"}}
+  \cup UNION {AllCuts(<<WithPx(Canon("RL11", <<"CL1">>, NoPad), b), WithPx(Follower, b)>>) : b \in {"blank1", "blank2"}}
+
+Cases(f) == CASE f = "embed" -> EmbedFam [] f = "blank" -> BlankFam [] f = "proxy" -> ProxyFam [] f = "heads1" -> Heads1 [] f = "heads2" -> Heads2 [] f = "heads3" -> Heads3
               [] f = "chunks" -> Chunks [] f = "pipeline" -> Pipeline [] f = "trunc" -> Trunc
               [] f = "limits" -> Limits [] f = "endless" -> Endless
               [] f = "quick" -> Heads1 \cup Chunks \cup Trunc
